@@ -249,14 +249,25 @@ func ruleC01NotOutermost(c *Ctx) {
 		}
 		return false
 	}
+	ff := p.FuncFlow()
 	for _, fn := range c.prodFuncs("ast") {
 		for _, call := range callsIn(fn) {
-			if !isCallTo(call, mut) {
+			var arg ssa.Value
+			if isCallTo(call, mut) {
+				arg = call.Common().Args[1]
+			} else if call.Common().StaticCallee() == nil && !call.Common().IsInvoke() {
+				// through a function value that may be the bound method (setFunction.MoveUpTree handed around)
+				for _, t := range ff.Resolve(call.Common().Value, 0) {
+					if methodOf(t) == mut && strings.HasSuffix(t.Name(), "$bound") && len(call.Common().Args) == 1 {
+						arg = call.Common().Args[0]
+					}
+				}
+			}
+			if arg == nil {
 				continue
 			}
 			n++
 			c.Analysed(FnName(fn))
-			arg := call.Common().Args[1]
 			c.Check(!hasNot(arg, 0), "C01.NOTOUTER", FnName(fn)+": MoveUpTree argument", p.Pos(call.Pos()), "the set function is hoisted over the plain typed comparison; a negation stays above the set function", "a negated comparison is handed to MoveUpTree: the NOT ends up inside the set function (anyOf(s) not in [...] would mean 'some element is not in the list')")
 		}
 	}
